@@ -1,6 +1,6 @@
 (* C07 — multi-time correlations are exact and aligned with the returned time axes. *)
 From Coq Require Import ZArith List Bool PrimFloat.
-From OQ Require Import Lib.PyFloat Lib.PySem Model.Corr Proofs.CorrSpec.
+From OQ Require Import Lib.PyFloat Lib.PySem Model.Corr Proofs.CorrSpec Model.BathTable Proofs.BathTableSpec.
 Import ListNotations.
 Local Open Scope Z_scope.
 
@@ -64,3 +64,20 @@ Print Assumptions int_float_spec.
 Example interval_down_to_zero :
   parse_times (TInterval 0x1.3333333333333p-2 0) 4 0x1.999999999999ap-4 0 = Some [3; 2; 1; 0].
 Proof. vm_compute. reflexivity. Qed.
+
+(* (7) the table of system correlations behind the bath-mode correlations (TwoTimeBathCorrelations): after ANY sequence of
+   earlier questions, a question about times up to step dim finds a table that covers dim steps -- the first question to a
+   fresh object included, whatever its size; with the empty table held as an array whose first dimension is 1 (the code
+   before the repair e2ae49c) a first question about one step finds nothing *)
+Theorem every_question_answerable :
+  forall (qs : list nat) (dim : nat), bt_answerable (bt_ask (bt_run false qs) dim) dim = true.
+Proof. exact every_question_answerable_lemma. Qed.
+Print Assumptions every_question_answerable.
+
+Theorem legacy_empty_table_refuted :
+  exists qs dim, bt_answerable (bt_ask (bt_run true qs) dim) dim = false.
+Proof. exists [], 1%nat. reflexivity. Qed.
+Print Assumptions legacy_empty_table_refuted.
+
+Example answerable_premise_met : bt_run false [1; 3; 2; 5]%nat = {| rows := 5; filled := 5 |}.
+Proof. reflexivity. Qed.
